@@ -9,6 +9,7 @@ structure DState where
 
 def endingStr : Ending → String
   | .finished => "fin" | .sleepValueError => "sleeperr" | .nonTerminating => "nonterm"
+  | .aborted k => s!"aborted{k}"
 
 def shapeStr : Shape → String
   | .circle => "circle" | .rect => "rect" | .ellipse => "ellipse"
@@ -19,8 +20,61 @@ def logLine (e : String) (log : List (Nat × GbcReq)) : String :=
     s!"{o}:{q.denm.refTime}:{q.denm.action.station}:{q.denm.action.seq}:{q.denm.stationId}:{q.port}:{shapeStr q.shape}:{q.a}:{q.b}:{q.angle}:{q.centre.lat}:{q.centre.lon}:{q.denm.pos.lat}:{q.denm.pos.lon}")
   s!"{e} n={log.length} {body}"
 
+/-- canonical line of an event log with hand-over outcome (`d` accepted by the transport, `x` transport raised) -/
+def logLineF (e : String) (log : List (Nat × GbcReq × Bool)) : String :=
+  let body := " ".intercalate (log.map fun (o, q, ok) =>
+    s!"{o}:{q.denm.refTime}:{q.denm.action.station}:{q.denm.action.seq}:{q.denm.stationId}:{q.port}:{shapeStr q.shape}:{q.a}:{q.b}:{q.angle}:{q.centre.lat}:{q.centre.lon}:{q.denm.pos.lat}:{q.denm.pos.lon}:{if ok then "d" else "x"}")
+  s!"{e} n={log.length} {body}"
+
+/-- fault token `t<k>` (transport raises at repetition k) / `e<k>` (coder raises at repetition k) -/
+def fault? (tok : String) : Option (Nat × Fault) :=
+  let num (cs : List Char) : Option Nat :=
+    if cs.isEmpty || !cs.all Char.isDigit then none else some (cs.foldl (fun a c => a * 10 + (c.toNat - 48)) 0)
+  match tok.toList with
+  | 't' :: cs => (num cs).map (·, Fault.transport)
+  | 'e' :: cs => (num cs).map (·, Fault.encode)
+  | _ => none
+
+def faultFn (l : List (Nat × Fault)) (k : Nat) : Fault :=
+  match l.find? (·.1 == k) with
+  | some p => p.2
+  | none => .ok
+
 def denmStep (s : DState) (t : List String) : DState × String :=
   match t with
+  | "eventf" :: variant :: start :: sub :: i :: T :: lat :: lon :: fs =>
+    match nat? start, nat? sub, int? i, int? T, int? lat, int? lon, fs.mapM fault? with
+    | some start, some sub, some i, some T, some lat, some lon, some fl =>
+      if i ≤ 0 then (s, "bad-op") else
+      match variant with
+      | "skip" =>
+        let (tm', log, e) := runEventF (fun t => t - sub) s.tm start ⟨i, T, ⟨lat, lon⟩⟩ (faultFn fl)
+        ({ s with tm := tm' }, logLineF (endingStr e) log)
+      | "abort" =>
+        let (tm', log, e) := runEventAbort (fun t => t - sub) s.tm start ⟨i, T, ⟨lat, lon⟩⟩ (faultFn fl)
+        ({ s with tm := tm' }, logLineF (endingStr e) log)
+      | _ => (s, "bad-op")
+    | _, _, _, _, _, _, _ => (s, "bad-op")
+  | ["eventref", start, sub, i, T, lat, lon, mAt, lat2, lon2] =>
+    -- OLD by-reference position: the caller overwrites its dictionary at absolute time `at` (after the repetitions
+    -- due at `at` have run)
+    match nat? start, nat? sub, int? i, int? T, int? lat, int? lon, nat? mAt, int? lat2, int? lon2 with
+    | some start, some sub, some i, some T, some lat, some lon, some mAt, some lat2, some lon2 =>
+      let (_, tm') := alloc s.tm
+      let log := runEventRef (fun t => t - sub) s.tm start i T (fun t => if t ≤ mAt then ⟨lat, lon⟩ else ⟨lat2, lon2⟩)
+      ({ s with tm := tm' }, logLine (endingStr (triggerOffsets i T).2) log)
+    | _, _, _, _, _, _, _, _, _ => (s, "bad-op")
+  | ["rxm", st, sq, ref, lat, lon, alt, due, del] =>
+    -- reception into the LDM with reactive maintenance: `due` = a collection runs at this add, `del` = the
+    -- collection's deletion test selects the new record (both decided by the harness from the real configuration)
+    match nat? st, nat? sq, nat? ref, int? lat, int? lon, int? alt, nat? due, nat? del with
+    | some st, some sq, some ref, some lat, some lon, some alt, some due, some del =>
+      let d : Denm := ⟨st, ⟨st, sq⟩, ref, ⟨lat, lon⟩, 0⟩
+      let l := feedLdmM (fun e => del == 1 && e == mkEntry d alt) (due == 1) [] d alt
+      match l.getLast? with
+      | some e => (s, s!"stored {e.appId} {e.lat} {e.lon} {e.alt} {e.radius} {e.obj.action.station} {e.obj.action.seq} {e.obj.refTime}")
+      | none => (s, "collected")
+    | _, _, _, _, _, _, _, _ => (s, "bad-op")
   | ["tm", st, nx] =>
     match nat? st, nat? nx with
     | some st, some nx => ({ s with tm := ⟨st, nx⟩ }, "ok")
@@ -51,6 +105,13 @@ def denmStep (s : DState) (t : List String) : DState × String :=
           s!"{l.length} {e.appId} {e.lat} {e.lon} {e.alt} {e.radius} {e.obj.action.station} {e.obj.action.seq} {e.obj.refTime}")
       | none => (s, "bad-op")
     | _, _, _, _, _, _ => (s, "bad-op")
+  | ["allocs", nx, n] =>
+    -- `n` events served one after the other from counter `nx`: final counter, then the sequence numbers
+    match nat? nx, nat? n with
+    | some nx, some n =>
+      let r := (List.range n).foldl (fun (acc : List Nat × TM) _ => let (q, tm') := alloc acc.2; (acc.1 ++ [q], tm')) ([], ⟨0, nx⟩)
+      (s, joinNat (r.2.next :: r.1))
+    | _, _ => (s, "bad-op")
   | ["ldmreset"] => ({ s with ldm := [] }, "ok")
   | _ => (s, "bad-op")
 
